@@ -342,8 +342,10 @@ type Rig struct {
 	te            pokertable.TableEngine
 	hk            *pokertable.VerifHooks
 	be            Backend
-	listenerDwell time.Duration // time the action listener takes (set before the hand starts)
-	gone          atomic.Bool   // the history is over: the backend answers nothing any more (abandon)
+	settledDone   atomic.Int64            // GameSettled notifications delivered (and their listener returned)
+	onSettled     func(*pokertable.Table) // called inside the GameSettled notification (set with setOnSettled)
+	listenerDwell time.Duration           // time the action listener takes (set before the hand starts)
+	gone          atomic.Bool             // the history is over: the backend answers nothing any more (abandon)
 	setting       pokertable.TableSetting
 
 	mu          sync.Mutex
@@ -452,6 +454,12 @@ func (g guardBackend) Pass(gs *pokerface.GameState) (*pokerface.GameState, error
 	return g.Backend.Pass(gs)
 }
 
+func (r *Rig) setOnSettled(f func(*pokertable.Table)) {
+	r.mu.Lock()
+	r.onSettled = f
+	r.mu.Unlock()
+}
+
 // abandon withdraws the backend: called when the history is over (completed, dropped or hung)
 func (r *Rig) abandon() { r.gone.Store(true) }
 
@@ -479,7 +487,16 @@ func NewRig(setting pokertable.TableSetting, be Backend, interval int) (*Rig, er
 	r.te.OnTableStateUpdated(func(ev string, t *pokertable.Table) {
 		r.mu.Lock()
 		r.stateEvents = append(r.stateEvents, ev+":"+string(t.State.Status))
+		f := r.onSettled
 		r.mu.Unlock()
+		// a listener that reacts to the settlement notification at once (a competition layer re-buying a busted player):
+		// the engine is between settleGame and continueGame, on the hand's updater goroutine, the engine lock not held
+		if ev == pokertable.TableStateEvent_GameSettled {
+			if f != nil {
+				f(t)
+			}
+			r.settledDone.Add(1)
+		}
 	})
 	r.te.OnGamePlayerActionUpdated(func(a pokertable.TablePlayerGameAction) {
 		r.mu.Lock()
